@@ -18,6 +18,8 @@
  * Outside the claim (G5): frame_size*channels beyond one second; not generated.
  */
 #include <stdarg.h>
+#include <unistd.h>
+#include <sys/wait.h>
 #include "c01_common.h"
 #include "control.h"
 #include "structs.h"
@@ -43,7 +45,7 @@ static int RW[3];                        /* payloads for the 256 TOC rewrites */
 static mc_ctr *c_trans,*c_eval,*c_decoded,*c_rejected,*c_insp,*c_valid,*c_adv_lastdur,*c_adv_plc,*c_bfs_trans;
 static mc_set *obs, *lastlevel;
 static htab *T_states, *T_classes;
-static int g_depth, g_quiet;
+static int g_depth, g_quiet, g_classkey;
 
 static const char *const API_NAME[3]={"decode16","decode24","decodef"};
 static const int API_BYTES[3]={2,4,4};
@@ -51,7 +53,7 @@ static const int API_BYTES[3]={2,4,4};
 /* ------------------------------------------------------------------ the judged call */
 static int run_decode(const cfg_t *c,OpusDecoder *d,const char *ctx,int api,const unsigned char *p,int len,int fs,int fec){
    long n=(long)fs*c->ch; void *out=pcmbuf(n*API_BYTES[api]); int ret; char sig[96]; const char *shape=(p==NULL||len==0)?"plc":(fec?"fec":"pkt");
-   if (!g_quiet) mc_case(API_NAME[api],"Fs=%d ch=%d %s | %s(len=%d,frame_size=%d,fec=%d) pkt=%s",c->Fs,c->ch,ctx,API_NAME[api],len,fs,fec,(p&&len>0)?mc_hex(p,len>560?560:len):"-");
+   if (!g_quiet){ char cs[40]; snprintf(cs,sizeof cs,"ss:%s:%s",API_NAME[api],shape); mc_case(cs,"Fs=%d ch=%d %s | %s(len=%d,frame_size=%d,fec=%d) pkt=%s",c->Fs,c->ch,ctx,API_NAME[api],len,fs,fec,(p&&len>0)?mc_hex(p,len>560?560:len):"-"); }
    if (api==0) ret=opus_decode(d,p,len,(opus_int16*)out,fs,fec);
    else if (api==1) ret=opus_decode24(d,p,len,(opus_int32*)out,fs,fec);
    else ret=opus_decode_float(d,p,len,(float*)out,fs,fec);
@@ -87,7 +89,7 @@ static const unsigned char **g_frames; static opus_int16 *g_sizes;
 static void run_inspect(const cfg_t *c,const unsigned char *p,int len,const char *ctx){
    unsigned char toc=0; int po=-1,r,i; char sig[64];
    if (!g_frames){ g_frames=malloc(48*sizeof(*g_frames)); g_sizes=malloc(48*sizeof(opus_int16)); }
-#define ICHK(name,call) do{ mc_case("inspect:" name,"Fs=%d %s len=%d pkt=%s",c->Fs,ctx,len,mc_hex(p,len>560?560:len)); r=(call); MC_INC(c_insp); MC_INC(c_eval); \
+#define ICHK(name,call) do{ mc_case("ss:inspect:" name,"Fs=%d %s len=%d pkt=%s",c->Fs,ctx,len,mc_hex(p,len>560?560:len)); r=(call); MC_INC(c_insp); MC_INC(c_eval); \
       if (r==OPUS_INTERNAL_ERROR||r<OPUS_ALLOC_FAIL){ snprintf(sig,sizeof sig,"ss:inspect:%s:bad_code",name); mc_fail(sig,"%s on len=%d pkt=%s returned %d",name,len,mc_hex(p,len>560?560:len),r); } }while(0)
    ICHK("parse",opus_packet_parse(p,len,&toc,g_frames,g_sizes,&po));
    if (r>0){ long tot=0; if(r>48) mc_fail("ss:inspect:parse:count_gt_48","len=%d pkt=%s count=%d",len,mc_hex(p,len>560?560:len),r);
@@ -108,8 +110,8 @@ static int apply_op(const cfg_t *c,OpusDecoder *d,const op_t *o,const char *ctx)
    switch(o->kind){
    case K_DEC16: case K_DEC24: case K_DECF: return run_decode(c,d,ctx,o->kind,o->p,o->len,o->fs,o->fec);
    case K_PLC: return run_decode(c,d,ctx,o->arg,NULL,0,o->fs,0);
-   case K_RESET: if(!g_quiet){ mc_case("reset","Fs=%d ch=%d %s | reset",c->Fs,c->ch,ctx); MC_INC(c_trans); } { int r=opus_decoder_ctl(d,OPUS_RESET_STATE); if(r!=OPUS_OK&&!g_quiet) mc_fail("ss:ctl:reset_failed","%s -> %d",ctx,r); return r; }
-   case K_GAIN: if(!g_quiet){ mc_case("set_gain","Fs=%d ch=%d %s | set_gain(%d)",c->Fs,c->ch,ctx,o->arg); MC_INC(c_trans); } { int r=opus_decoder_ctl(d,OPUS_SET_GAIN(o->arg)); if(r!=OPUS_OK&&!g_quiet) mc_fail("ss:ctl:set_gain_failed","%s gain=%d -> %d",ctx,o->arg,r); return r; }
+   case K_RESET: if(!g_quiet){ mc_case("ss:reset","Fs=%d ch=%d %s | reset",c->Fs,c->ch,ctx); MC_INC(c_trans); } { int r=opus_decoder_ctl(d,OPUS_RESET_STATE); if(r!=OPUS_OK&&!g_quiet) mc_fail("ss:ctl:reset_failed","%s -> %d",ctx,r); return r; }
+   case K_GAIN: if(!g_quiet){ mc_case("ss:set_gain","Fs=%d ch=%d %s | set_gain(%d)",c->Fs,c->ch,ctx,o->arg); MC_INC(c_trans); } { int r=opus_decoder_ctl(d,OPUS_SET_GAIN(o->arg)); if(r!=OPUS_OK&&!g_quiet) mc_fail("ss:ctl:set_gain_failed","%s gain=%d -> %d",ctx,o->arg,r); return r; }
    }
    return 0;
 }
@@ -121,9 +123,8 @@ static void hist_build(const cfg_t *c,uint64_t h,OpusDecoder *d){ int k,dep=H_DE
 static uint64_t class_key(const cfg_t *c,const OpusDecoder *d,int cfgi){
    uint64_t k=mc_mix(0xC01,cfgi);
    if (mirror_ok){ const odec_mirror *o=(const odec_mirror*)d; const celt_mirror *ce=(const celt_mirror*)((const char*)d+o->celt_dec_offset); const silk_mirror *si=(const silk_mirror*)((const char*)d+o->silk_dec_offset);
-      k=mc_mix(k,o->mode); k=mc_mix(k,o->prev_mode); k=mc_mix(k,o->prev_redundancy); k=mc_mix(k,o->stream_channels); k=mc_mix(k,o->bandwidth); k=mc_mix(k,o->frame_size);
-      k=mc_mix(k,o->decode_gain>0?2:o->decode_gain<0?1:0); k=mc_mix(k,ce->loss_duration>0); k=mc_mix(k,ce->skip_plc); k=mc_mix(k,si->nChannelsInternal); k=mc_mix(k,si->channel_state[0].fs_kHz); k=mc_mix(k,si->channel_state[0].lossCnt>0);
-      k=mc_mix(k,si->prev_decode_only_middle);
+      k=mc_mix(k,o->mode); k=mc_mix(k,o->prev_mode); k=mc_mix(k,o->prev_redundancy); k=mc_mix(k,o->stream_channels); if(g_classkey==0) k=mc_mix(k,o->bandwidth); k=mc_mix(k,o->frame_size);
+      k=mc_mix(k,ce->loss_duration>0); k=mc_mix(k,ce->skip_plc); k=mc_mix(k,si->nChannelsInternal); k=mc_mix(k,si->channel_state[0].fs_kHz);
    } else { opus_int32 bw=0,ld=0,g=0,pi=0; OpusDecoder *dd=(OpusDecoder*)d; opus_decoder_ctl(dd,OPUS_GET_BANDWIDTH(&bw)); opus_decoder_ctl(dd,OPUS_GET_LAST_PACKET_DURATION(&ld)); opus_decoder_ctl(dd,OPUS_GET_GAIN(&g)); opus_decoder_ctl(dd,OPUS_GET_PITCH(&pi));
       k=mc_mix(k,bw); k=mc_mix(k,ld); k=mc_mix(k,g>0?2:g<0?1:0); k=mc_mix(k,pi>0); }
    return k;
@@ -148,6 +149,8 @@ static void bfs_item(long it,void *vctx){
 /* ------------------------------------------------------------------ frame-size alphabets */
 static int F_full(const cfg_t *c,int *f){ int q=c->F25,n=0; f[n++]=0; f[n++]=1; f[n++]=q-1; f[n++]=q; f[n++]=2*q; f[n++]=3*q; f[n++]=4*q; f[n++]=5*q; f[n++]=6*q; f[n++]=8*q; f[n++]=8*q+1; f[n++]=16*q; f[n++]=24*q; f[n++]=32*q; f[n++]=40*q; f[n++]=48*q; f[n++]=49*q; f[n++]=c->Fs; return n; }
 static int F_small(const cfg_t *c,int *f){ int q=c->F25,n=0; f[n++]=q; f[n++]=4*q; f[n++]=8*q; f[n++]=8*q+1; f[n++]=24*q; f[n++]=48*q; return n; }
+static int F_mid(const cfg_t *c,int *f){ int q=c->F25,n=0; f[n++]=0; f[n++]=q-1; f[n++]=q; f[n++]=4*q; f[n++]=8*q; f[n++]=8*q+1; f[n++]=24*q; f[n++]=48*q; f[n++]=c->Fs; return n; }
+static int F_three(const cfg_t *c,int *f){ int q=c->F25,n=0; f[n++]=q; f[n++]=8*q; f[n++]=48*q; return n; }
 /* packet-relative sizes: just too small, exact, exact+1 (not a 2.5 ms multiple), exact + 20 ms, 120 ms */
 static int F_rel(const cfg_t *c,const unsigned char *p,int len,int *f){ rfc_pkt m; int n=0,q=c->F25; long D; rfc_parse(p,len,0,&m); D=m.ok?(long)m.count*rfc_frame_48k(m.toc)*c->Fs/48000:(len>0?(long)rfc_frame_48k(p[0])*c->Fs/48000:8*q);
    if (D>48*q) D=48*q; if(D-q>0) f[n++]=(int)D-q; f[n++]=(int)D; f[n++]=(int)D+1; if(D+8*q<48*q) f[n++]=(int)D+8*q; if(D!=48*q) f[n++]=48*q; return n; }
@@ -155,23 +158,24 @@ static int F_rel(const cfg_t *c,const unsigned char *p,int len,int *f){ rfc_pkt 
 /* ------------------------------------------------------------------ stage 2: leaf alphabet from class representatives */
 typedef struct { uint64_t *reps; long n; } cls_ctx;
 static unsigned char *g_blk1,*g_blk2;
-static void leaf_packet(const cfg_t *c,const char *ctx,const unsigned char *p,int len,int apis,int rel){
+/* sizes: 0 = 120 ms only; 1 = packet-relative set F_rel; 2 = {just too small, exact, 120 ms} */
+static void leaf_packet(const cfg_t *c,const char *ctx,const unsigned char *p,int len,int apis,int fecs,int sizes){
    int f[8],nf,i,api,fec;
-   if (rel) nf=F_rel(c,p,len,f); else { f[0]=48*c->F25; nf=1; }
-   for(api=0;api<3;api++) if(apis&(1<<api)) for(fec=0;fec<2;fec++) for(i=0;i<nf;i++){ memcpy(g_work,g_base,c->sz); run_decode(c,g_work,ctx,api,p,len,f[i],fec); }
+   if (sizes==1) nf=F_rel(c,p,len,f); else if (sizes==2){ int g[8],ng=F_rel(c,p,len,g); nf=0; for(i=0;i<ng&&nf<2;i++) f[nf++]=g[i]; if(f[nf-1]!=48*c->F25) f[nf++]=48*c->F25; } else { f[0]=48*c->F25; nf=1; }
+   for(api=0;api<3;api++) if(apis&(1<<api)) for(fec=0;fec<2;fec++) if(fecs&(1<<fec)) for(i=0;i<nf;i++){ memcpy(g_work,g_base,c->sz); run_decode(c,g_work,ctx,api,p,len,f[i],fec); }
 }
 static void cls_item(long it,void *vctx){
    cls_ctx *cc=vctx; uint64_t h=cc->reps[it]; int ci=H_CFG(h),t,x,k,i; const cfg_t *c=&CF[ci]; char ctx[400]; int f[20],nf; int thorough=MC.tier;
-   static const unsigned char second[9]={0x00,0x01,0x02,0x03,0x30,0x31,0x41,0x81,0x82};
+   static const unsigned char second[9]={0x00,0x02,0x81,0x01,0x30,0x03,0x31,0x41,0x82};
    need_work(c->sz); hist_build(c,h,g_base); hist_desc(c,h,ctx,sizeof ctx);
    if(!g_blk1){ g_blk1=malloc(1); g_blk2=malloc(2); }
    /* (a) every TOC-only packet, (b) two-byte packets with the structurally distinct second bytes */
-   for(t=0;t<256;t++){ g_blk1[0]=(unsigned char)t; leaf_packet(c,ctx,g_blk1,1,thorough?7:(4|(1<<(t%2))),1);
-      for(x=0;x<9;x++){ g_blk2[0]=(unsigned char)t; g_blk2[1]=second[x]; leaf_packet(c,ctx,g_blk2,2,4,0); } }
-   /* (c) three payloads under each of the 256 TOC bytes */
-   for(k=0;k<3;k++){ cpkt *b=&C.p[RW[k]]; unsigned char *q=xdup(b->data,b->len); for(t=0;t<256;t++){ if(!thorough && (t&3)!=0 && (t&3)!=(k+1)) continue; q[0]=(unsigned char)t; leaf_packet(c,ctx,q,b->len,4,0); } xfree(q); }
-   /* (d) corpus packets, packet-relative frame sizes, all sample formats (quick: format rotates with the packet index) */
-   for(i=0;i<nLB;i++){ cpkt *b=&C.p[LB[i]]; unsigned char *q=xdup(b->data,b->len); leaf_packet(c,ctx,q,b->len,thorough?7:(4|(1<<(i%2))),1); xfree(q); }
+   for(t=0;t<256;t++){ g_blk1[0]=(unsigned char)t; leaf_packet(c,ctx,g_blk1,1,thorough?5:4,3,thorough?2:0);
+      for(x=0;x<(thorough?9:3);x++){ g_blk2[0]=(unsigned char)t; g_blk2[1]=second[x]; leaf_packet(c,ctx,g_blk2,2,4,thorough?3:1,0); } }
+   /* (c) three payloads under each of the 256 TOC bytes (quick: frame codes 0 and one other per payload) */
+   for(k=0;k<3;k++){ cpkt *b=&C.p[RW[k]]; unsigned char *q=xdup(b->data,b->len); for(t=0;t<256;t++){ if(!thorough && (t&3)!=0 && (t&3)!=(k+1)) continue; q[0]=(unsigned char)t; leaf_packet(c,ctx,q,b->len,4,thorough?3:1,0); } xfree(q); }
+   /* (d) corpus packets, packet-relative frame sizes, all sample formats (quick: 16/24-bit alternate with the packet index) */
+   for(i=0;i<nLB;i++){ cpkt *b=&C.p[LB[i]]; unsigned char *q=xdup(b->data,b->len); leaf_packet(c,ctx,q,b->len,thorough?7:(4|(1<<(i%2))),3,2); xfree(q); }
    /* (e) concealment of every size in F, all formats */
    nf=F_full(c,f); for(k=0;k<3;k++) for(i=0;i<nf;i++){ memcpy(g_work,g_base,c->sz); run_decode(c,g_work,ctx,k,NULL,0,f[i],0); }
 }
@@ -184,7 +188,7 @@ static void small_item(long it,void *vctx){
    if (pi>0){ h=h_push(h,c->primed[pi-1][0]); if(c->primed[pi-1][1]>=0) h=h_push(h,c->primed[pi-1][1]); }
    need_work(c->sz); hist_build(c,h,g_base); hist_desc(c,h,ctx,sizeof ctx);
    if(!g_blk1){ g_blk1=malloc(1); g_blk2=malloc(2); }
-   nf = pi==0 ? F_full(c,f) : F_small(c,f);
+   nf = pi==0 ? (MC.tier?F_full(c,f):F_mid(c,f)) : (MC.tier?F_small(c,f):F_three(c,f));
    for(x=-1;x<256;x++){ const unsigned char *p; int len;
       if (x<0){ g_blk1[0]=(unsigned char)toc; p=g_blk1; len=1; } else { g_blk2[0]=(unsigned char)toc; g_blk2[1]=(unsigned char)x; p=g_blk2; len=2; }
       if (pi==0) run_inspect(c,p,len,"");
@@ -201,7 +205,7 @@ static void closure_item(long it,void *vctx){
       if (len<0) break;
       snprintf(ctx,sizeof ctx,"fresh; base='%s'#%d %s",C.s[b->stream].name,b->idx,d2);
       q=xdup(out,len); run_inspect(c,q,len,ctx);
-      if (len>0){ nf=F_rel(c,q,len,f); f[nf++]=c->F25;
+      if (len>0){ if(MC.tier){ nf=F_rel(c,q,len,f); f[nf++]=c->F25; } else { int g[8],ng=F_rel(c,q,len,g); nf=0; for(i=0;i<ng&&nf<2;i++) f[nf++]=g[i]; if(f[nf-1]!=48*c->F25) f[nf++]=48*c->F25; }
          for(api=0;api<3;api++) for(fec=0;fec<2;fec++) for(i=0;i<nf;i++){ memcpy(g_work,g_base,c->sz); run_decode(c,g_work,ctx,api,q,len,f[i],fec); } }
       xfree(q);
    }
@@ -221,11 +225,16 @@ static void probe_item(long it,void *vctx){
    run_inspect(c,g_zero,0,"zero-length packet");
    xfree(q);
 }
-/* the one inspection function that takes (packet,len) and is not guarded for len==0: kept in an item of its own so that a
-   crash here cannot hide anything else */
-static void probe_lbrr0_item(long it,void *vctx){ int r; (void)it; (void)vctx;
-   mc_case("inspect:has_lbrr:len0","opus_packet_has_lbrr(packet=<zero-length heap region>, len=0)"); r=opus_packet_has_lbrr(g_zero,0); MC_INC(c_insp); MC_INC(c_eval);
-   if (r>0||r==OPUS_INTERNAL_ERROR) mc_fail("ss:inspect:has_lbrr:len0_code","returned %d",r);
+/* the one inspection function that takes (packet,len) and is not guarded for len==0. The call runs in a forked child of its
+   own so that its ASan abort is an ordinary, attributable failure record and cannot hide or abort anything else. */
+static void probe_lbrr0_item(long it,void *vctx){ pid_t pid; int stt=0; (void)it; (void)vctx;
+   mc_case("ss:inspect:has_lbrr:len0","opus_packet_has_lbrr(packet=<zero-length heap region>, len=0)"); MC_INC(c_insp); MC_INC(c_eval);
+   fflush(stdout); pid=fork();
+   if (pid==0){ int r=opus_packet_has_lbrr(g_zero,0); _exit((r>0||r==OPUS_INTERNAL_ERROR||r<OPUS_ALLOC_FAIL)?3:0); }
+   if (pid<0 || waitpid(pid,&stt,0)<0) return;
+   if (WIFSIGNALED(stt)) mc_fail("ss:inspect:has_lbrr:len0:overread","opus_packet_has_lbrr(packet=<zero-length heap region: one past a 1-byte malloc block>, len=0) died with signal %d (AddressSanitizer report in the out directory: READ of packet[0])",WTERMSIG(stt));
+   else if (WIFEXITED(stt)&&WEXITSTATUS(stt)==3) mc_fail("ss:inspect:has_lbrr:len0:bad_code","opus_packet_has_lbrr(packet,0) returned a positive or undocumented value");
+   else if (WIFEXITED(stt)&&WEXITSTATUS(stt)!=0) mc_fail("ss:inspect:has_lbrr:len0:overread","opus_packet_has_lbrr(packet=<zero-length heap region>, len=0): child exited with status %d",WEXITSTATUS(stt));
 }
 /* thorough: every 3-byte string from the fresh state; item = (cfg slot, toc, second byte) */
 static int S3CFG[4], nS3;
@@ -268,7 +277,7 @@ static void build_cfg(cfg_t *c,int Fs,int ch,int hstride){
    { cpkt *b=&C.p[find_pkt("silk bw2 200ms/10 ch1 r0",0)]; static const int tocs[6]={0x60,0x7C,0xFC,0x9B,0x03,0x1D}; unsigned char tmp[1500];
      for(i=0;i<6;i++){ memcpy(tmp,b->data,b->len); tmp[0]=(unsigned char)tocs[i]; add_op(c,K_DECF,full,0,0,NULL,tmp,b->len,"f(silk-wb payload as toc %02x)",tocs[i]); }
      add_op(c,K_DECF,full,0,0,NULL,b->data,b->len/2,"f(silk-wb prefix %d)",b->len/2);
-     b=&C.p[find_pkt("transition hybrid->celt ch1",2)]; add_op(c,K_DECF,full,0,0,NULL,b->data,b->len-3,"f(hybrid-redundancy prefix %d)",b->len-3); add_op(c,K_DECF,full,0,0,NULL,b->data,8,"f(hybrid-redundancy prefix 8)");
+     b=&C.p[find_pkt("transition hybrid->celt ch1",2)]; add_op(c,K_DECF,full,0,0,NULL,b->data,b->len-3,"f(hybrid-redundancy prefix %d)",b->len-3); { int n; for(n=8;n<b->len-3;n+=8) add_op(c,K_DECF,full,0,0,NULL,b->data,n,"f(hybrid-redundancy prefix %d)",n); }
      b=&C.p[find_pkt("celt bw3 200ms/10 ch2 r0",0)]; add_op(c,K_DECF,full,0,0,NULL,b->data,b->len/3,"f(celt-fb prefix %d)",b->len/3);
      { static const int t1[7]={0x08,0x0C,0x38,0x68,0x7C,0x80,0xFC}; for(i=0;i<7;i++){ tmp[0]=(unsigned char)t1[i]; add_op(c,K_DECF,full,0,0,NULL,tmp,1,"f(toc-only %02x)",t1[i]); } }
      tmp[0]=0x0B; tmp[1]=0x03; add_op(c,K_DECF,full,0,0,NULL,tmp,2,"f(0b 03: three empty silk frames)");
@@ -280,7 +289,7 @@ static void build_cfg(cfg_t *c,int Fs,int ch,int hstride){
 }
 static int find_op(const cfg_t *c,const char *tagpart){ int i; for(i=0;i<c->nH;i++) if(strstr(c->H[i].tag,tagpart)) return i; fprintf(stderr,"c01: no op with tag '%s'\n",tagpart); exit(2); }
 
-static void self_check(void){
+static void self_check_body(void){
    /* mirrors must agree with what the public getters say, otherwise fall back to a getter-only class key */
    int ci; for(ci=0;ci<ncfg&&mirror_ok;ci++){ cfg_t *c=&CF[ci]; OpusDecoder *d=malloc(c->sz); const odec_mirror *o=(const odec_mirror*)d; opus_int32 bw=0,ld=0; float *out=malloc(sizeof(float)*48*c->F25*c->ch); cpkt *b=&C.p[find_pkt("silk bw2 200ms/10 ch1 r0",0)]; int r;
       memcpy(d,c->fresh,c->sz);
@@ -292,6 +301,14 @@ static void self_check(void){
       }
       free(out); free(d);
    }
+}
+/* runs in a forked child: the parent never executes codec code on a packet itself, so a library defect can only ever
+   kill a worker, not the enumerator */
+static void self_check(void){
+   int *res=mc_shared(sizeof(int)); pid_t pid; int stt=0; fflush(stdout); pid=fork();
+   if (pid==0){ self_check_body(); *res=mirror_ok?1:2; _exit(0); }
+   if (pid>0) waitpid(pid,&stt,0);
+   mirror_ok = (*res==1);
    if (!mirror_ok) mc_info("struct mirrors do not match this build: state classes fall back to public getters (bandwidth, last duration, gain sign, pitch>0)");
 }
 
@@ -305,7 +322,7 @@ int main(int argc,char **argv){
    static const int RATES[5]={48000,16000,8000,24000,12000}; int i,d,hstride,lbstride,do_s3; long n,skipped=0; mc_ctr *st,*dn,*cls,*lvl[5];
    mc_init(argc,argv,"C01","ss");
    g_replay=MC.only_item; exact_init();
-   g_depth=(int)mc_arg("--depth",MC.tier?3:2); hstride=(int)mc_arg("--hstride",MC.tier?2:1); lbstride=(int)mc_arg("--lbstride",MC.tier?1:5); do_s3=(int)mc_arg("--s3",MC.tier?1:0);
+   g_depth=(int)mc_arg("--depth",MC.tier?3:2); hstride=(int)mc_arg("--hstride",MC.tier?2:1); lbstride=(int)mc_arg("--lbstride",MC.tier?6:12); g_classkey=(int)mc_arg("--classkey",MC.tier?0:1); do_s3=(int)mc_arg("--s3",MC.tier?1:0); int stages=(int)mc_arg("--stages",15);
    c_trans=mc_counter("transitions"); c_eval=mc_counter("evaluations"); c_decoded=mc_counter("calls_returning_samples"); c_rejected=mc_counter("calls_returning_error"); c_insp=mc_counter("inspection_calls");
    c_valid=mc_counter("valid_framing_clause_checked"); c_adv_lastdur=mc_counter("advisory_last_duration_differs"); c_adv_plc=mc_counter("advisory_plc_count_not_exact"); c_bfs_trans=mc_counter("bfs_transitions");
    st=mc_counter("states"); dn=mc_counter("distinct_nontrivial"); cls=mc_counter("state_classes");
@@ -325,12 +342,15 @@ int main(int argc,char **argv){
    for(i=0;i<ncfg;i++){ cfg_t *c=&CF[i]; int k=0;
       c->primed[k][0]=find_op(c,"f('silk bw2 200ms/10 ch1 r0'"); c->primed[k++][1]=-1;
       c->primed[k][0]=find_op(c,"f('celt bw3 200ms/10 ch2 r0'"); c->primed[k++][1]=find_op(c,"plcf(");
-      c->primed[k][0]=find_op(c,"f('hybrid bw1 200ms/10 ch2 r0'"); c->primed[k++][1]=-1;
-      if (MC.tier){ c->primed[k][0]=find_op(c,"f('silk nb 60ms fec ch2'"); c->primed[k++][1]=find_op(c,"plc16("); c->primed[k][0]=find_op(c,"f('celt bw1 25ms/10 ch1 r0'"); c->primed[k++][1]=find_op(c,"gain(32767)"); }
+      if (MC.tier){ c->primed[k][0]=find_op(c,"f('hybrid bw1 200ms/10 ch2 r0'"); c->primed[k++][1]=-1; c->primed[k][0]=find_op(c,"f('silk nb 60ms fec ch2'"); c->primed[k++][1]=find_op(c,"plc16("); c->primed[k][0]=find_op(c,"f('celt bw1 25ms/10 ch1 r0'"); c->primed[k++][1]=find_op(c,"gain(32767)"); }
       c->nprimed=k; }
    self_check();
    mc_info("corpus: %d packets in %d streams (frozen reference encoder); |H|=%d ops; leaf corpus packets=%d; closure bases=%d; configs=%d; depth=%d; mirror_ok=%d",C.n,C.ns,CF[0].nH,nLB,nB12,ncfg,g_depth,mirror_ok);
 
+   /* fixed item ranges for the stages that do not depend on the BFS (cheap replays), then the data-dependent ones */
+   if (do_s3){ S3CFG[nS3++]=0; for(i=0;i<ncfg;i++) if(CF[i].Fs==16000&&CF[i].ch==1){ S3CFG[nS3++]=i; break; } }
+   long n_probe=ncfg, n_clo=(long)ncfg*nB12*CL_SLICES, n_small=(long)ncfg*8*256, n_s3=(long)nS3*65536;
+   long b_probe=stage_reserve(n_probe), b_lbrr=stage_reserve(1), b_clo=stage_reserve(n_clo), b_small=stage_reserve(n_small), b_s3=stage_reserve(n_s3);
    g_t=now_s();
    /* ---------------- stage 1: BFS on full-image hashes */
    for(i=0;i<ncfg;i++){ uint64_t h=h_root(i); htab_put(T_states,mc_hash(CF[i].fresh,CF[i].sz,0xC01000+i),h); htab_put(T_classes,class_key(&CF[i],(OpusDecoder*)CF[i].fresh,i),h); }
@@ -338,14 +358,12 @@ int main(int argc,char **argv){
       snprintf(nm,sizeof nm,"bfs_level%d_states",d); lvl[d]=mc_counter(nm); *lvl[d]=b.n;
       skipped+=stage_par(b.n,bfs_item,&b,1); free(b.front); stage_info(nm,b.n);
       if (skipped){ mc_capped("BFS level incomplete (deadline); deeper levels and class stage see a partial frontier"); break; } }
-   /* ---------------- stage 2: leaf alphabet from every class representative */
-   { cls_ctx cc; cc.reps=htab_collect(T_classes,-1,&cc.n); *cls=cc.n; stage_par(cc.n,cls_item,&cc,0); free(cc.reps); stage_info("classes",cc.n); }
-   /* ---------------- stage 3 */
-   stage_par((long)ncfg*8*256,small_item,NULL,0); stage_info("small",(long)ncfg*8*256);
-   stage_par((long)ncfg*nB12*CL_SLICES,closure_item,NULL,0); stage_info("closure",(long)ncfg*nB12*CL_SLICES);
-   stage_par(ncfg,probe_item,NULL,0);
-   stage_par(1,probe_lbrr0_item,NULL,0);
-   if (do_s3){ S3CFG[nS3++]=0; for(i=0;i<ncfg;i++) if(CF[i].Fs==16000&&CF[i].ch==1){ S3CFG[nS3++]=i; break; } stage_par((long)nS3*65536,s3_item,NULL,0); stage_info("s3",(long)nS3*65536); }
+   /* ---------------- later stages, most discriminating first (a deadline cuts from the end) */
+   if(stages&8){ stage_par_at(b_probe,n_probe,probe_item,NULL,0); stage_par_at(b_lbrr,1,probe_lbrr0_item,NULL,0); }
+   if(stages&4) stage_par_at(b_clo,n_clo,closure_item,NULL,0); stage_info("closure",(long)ncfg*nB12*CL_SLICES);
+   if(stages&1){ cls_ctx cc; cc.reps=htab_collect(T_classes,-1,&cc.n); *cls=cc.n; stage_par(cc.n,cls_item,&cc,0); free(cc.reps); stage_info("classes",cc.n); }
+   if(stages&2) stage_par_at(b_small,n_small,small_item,NULL,0); stage_info("small",(long)ncfg*8*256);
+   if (do_s3){ stage_par_at(b_s3,n_s3,s3_item,NULL,0); stage_info("s3",(long)nS3*65536); }
    n=__atomic_load_n(&T_states->count,__ATOMIC_RELAXED);
    *st=n+mc_set_count(lastlevel); *dn=mc_set_count(obs);
    return mc_finish();
